@@ -170,6 +170,8 @@ def map_vars(x, f):
         spine = []
         while True:
             args = x[2]
+            if not args:            # a compound term without arguments, f(): nothing below it
+                break
             spine.append((x[1], [map_vars(a, f) for a in args[:-1]]))
             x = args[-1]
             if x[0] != "fun":
